@@ -166,8 +166,20 @@ def pmap(f, xs, n=None):
 
 # ----------------------------------------------------------------------------------------------
 # Coq side
+TRANSLATOR = {'failed': [], 'translated': 0, 'ran': False}
+def run_translator():
+    """regenerate coq/Gen/Generated.v from /repo's current source (lib/cxx2v.py); once per process"""
+    if TRANSLATOR['ran']: return
+    import cxx2v
+    try:
+        failed, n = cxx2v.write_generated(REPO, COQDIR)
+    except Exception as ex:            # an unreadable source file etc.: every translated definition is missing
+        failed, n = [('*', 'translator', str(ex))], 0
+    TRANSLATOR.update(failed=[list(f) for f in failed], translated=n, ran=True)
+
 def coq_make(targets, timeout=1800):
     """(re)build the given .vo targets with a full (non -vos) build; returns (ok, log)"""
+    run_translator()
     if not os.path.exists(os.path.join(COQDIR, 'Makefile')):
         subprocess.run(['coq_makefile', '-f', '_CoqProject', '-o', 'Makefile'], cwd=COQDIR, capture_output=True)
     r = subprocess.run(['timeout', str(timeout), 'make', '-k', '-j%d' % NCPU] + targets, cwd=COQDIR, capture_output=True, text=True)
@@ -288,7 +300,10 @@ def prove(prop_file):
             broken.append({'file': m.group(1), 'line': int(m.group(2)), 'error': m.group(3)[:600]})
         if not broken: broken.append({'file': prop_file, 'line': 0, 'error': log[-1500:]})
     bad = scan_forbidden()
-    return {'ok': ok and not bad, 'theorems': thms, 'n_closed_ctx': closed_ctx, 'axioms': sorted(axioms),
+    if TRANSLATOR['failed'] and 'Gen.Generated' in src:
+        for f in TRANSLATOR['failed']:
+            broken.append({'file': 'Gen/Generated.v', 'line': 0, 'error': 'cxx2v could not translate %s (%s): %s' % tuple(f)})
+    return {'ok': ok and not bad, 'translator': dict(TRANSLATOR), 'theorems': thms, 'n_closed_ctx': closed_ctx, 'axioms': sorted(axioms),
             'broken': broken, 'forbidden': bad, 'wall_s': time.time() - t0, 'log': log}
 
 # ----------------------------------------------------------------------------------------------
@@ -333,6 +348,10 @@ class Report:
             cov['checker_cmd'] = 'make -C coq -k Properties_%s.vo (coqc 8.16.1, full .vo build) ; Print Assumptions under every theorem' % self.pid
             cov['trusted_base'] = (trusted or []) + ['axioms reported by Print Assumptions on this run: ' + (', '.join(proof['axioms']) or 'none (closed under the global context)')]
             cov['theorems'] = proof['theorems']
+            if 'Gen.Generated' in open(os.path.join(COQDIR, 'Properties_%s.v' % self.pid)).read():
+                tr = proof.get('translator', {})
+                cov['source_translation'] = {'translator': 'lib/cxx2v.py (re-run on this check against /repo\'s working tree)',
+                                             'definitions_translated': tr.get('translated'), 'failed': tr.get('failed')}
             cov['proof_wall_s'] = round(proof['wall_s'], 1)
         ev = {'property_id': self.pid, 'tier': tier() if tier() in ('quick', 'thorough') else 'quick', 'seed': seed(), 'level': self.level,
               'coverage': cov, 'assumptions': self.assumptions, 'wall_s': round(wall, 2), 'violations': len(self.violations),
